@@ -520,6 +520,13 @@ def _ueq(st, u, v):
     return "ok " + _b(r)
 
 
+@op("ucmp")
+def _ucmp(st, o, u, v):
+    import operator
+    a, b = Unit(u), Unit(v)
+    return "ok " + _b(getattr(operator, o)(a, b))
+
+
 @op("q_mk")
 def _q_mk(st, cls, a, u, d):
     with dflt_mode(d):
